@@ -10,6 +10,7 @@
    fsync / close errors are propagated is decided by the correspondence run (fault enumeration). *)
 From Coq Require Import List.
 Require Import ZV.IO.
+Require ZV.IO2.
 Import ListNotations.
 
 Theorem C17_ok_is_complete : forall (byte : Type) c (s : sink byte) ps b',
@@ -22,3 +23,14 @@ Theorem C17_fail_is_error : forall (byte : Type) c (s : sink byte) ps l b' e,
   flush byte (run byte (fresh byte c s) ps) = (b', e) -> e = true.
 Proof. exact IO.C17_fail_is_error. Qed.
 Print Assumptions C17_fail_is_error.
+
+(* the same for an ARBITRARY failure oracle (transient failures, destinations rejecting large writes,
+   short writes): success of the final checked Flush means no destination write failed and the
+   destination holds exactly all bytes; any failed destination write makes the final Flush fail *)
+Theorem C17_any_failure_surfaces : forall (byte : Type) (accept : nat -> list byte -> nat) c (s : IO2.sink byte) ps,
+  IO2.failed byte s = false ->
+  let '(b', e) := IO2.flush byte accept (IO2.run byte accept (IO2.fresh byte c s) ps) in
+  (e = false -> IO2.failed byte (IO2.dst byte b') = false /\ IO2.written byte (IO2.dst byte b') = IO2.written byte s ++ concat ps) /\
+  (IO2.failed byte (IO2.dst byte b') = true -> e = true).
+Proof. exact IO2.C17_any_failure_surfaces. Qed.
+Print Assumptions C17_any_failure_surfaces.
